@@ -11,7 +11,9 @@
 
    Vocabulary (Model/C12_Prim.v): a datetime is [wall] (microseconds since 0001-01-01T00:00 on
    its own clock face) and, when aware, [tz] = its UTC offset in microseconds (+ tzname(None));
-   [instant d] = wall - offset; timedeltas and second counts are microseconds; a world [w]
+   [instant d] = wall - offset; timedeltas are microseconds; a second count is a Python int or binary64 float
+   ([pynum]) and [td_of_seconds s] is timedelta(seconds=s) as CPython computes it (exact / integer part + round-half-even of
+   the binary64 product fraction * 1e6; OverflowError / ValueError for out-of-range, infinite, NaN); a world [w]
    holds the override slot [ov w], the OS clock, and the iso8601 / zoneinfo look-ups.
    M A = world -> res A * world.
 
@@ -20,10 +22,11 @@
    (Gen/C12_Timeutils.v); Proofs/C12_Equiv.v proves each equal to the hand-written model of
    Model/C12.v, on which the lemmas are proved. *)
 From Coq Require Import String.
-Require Import OV.Base.Bytes OV.Base.Py.
+From Coq Require Import SpecFloat.
+Require Import OV.Base.Bytes OV.Base.Py OV.Base.PyFloat.
 Require Import OV.Model.C12_Calendar OV.Model.C12_Prim OV.Model.C12 OV.Model.C12_Iso.
 Require Import OV.Gen.C12_Timeutils.
-Require Import OV.Proofs.C12_Calendar OV.Proofs.C12 OV.Proofs.C12_Iso OV.Proofs.C12_Equiv.
+Require Import OV.Proofs.C12_Calendar OV.Proofs.C12 OV.Proofs.C12_Iso OV.Proofs.C12_Float OV.Proofs.C12_Equiv.
 Open Scope Z_scope.
 
 (* ---- the calendar the model computes with is a bijection (all years >= 1, unbounded) ---- *)
@@ -147,28 +150,82 @@ Proof. exact gen_advance_then_utcnow. Qed.
 Print Assumptions C12_advance_then_utcnow.
 
 (* ... and one leaving datetime's range raises OverflowError and moves nothing *)
-Theorem C12_advance_overflow : forall w t delta, ov w = One t -> in_range (wall t + delta) = false ->
-  gen_advance_time_delta delta w = (Exn OverflowError, w) /\ gen_advance_time_seconds delta w = (Exn OverflowError, w).
+Theorem C12_advance_overflow : forall w t x delta, ov w = One t -> td_of_days_seconds 0 x = Ok delta -> in_range (wall t + delta) = false ->
+  gen_advance_time_delta delta w = (Exn OverflowError, w) /\ gen_advance_time_seconds x w = (Exn OverflowError, w).
 Proof. exact gen_advance_overflow. Qed.
 Print Assumptions C12_advance_overflow.
 
+(* oslo_utils.fixture.TimeFixture keeps no instant of its own: its methods are the module functions
+   (C12_advance_exact covers any interleaving: constructors FxByDelta / FxBySeconds) *)
+Theorem C12_fixture_is_module :
+  (forall o w, gen_fixture_setUp o w = gen_set_time_override o w) /\
+  (forall w, gen_fixture_cleanUp w = gen_clear_time_override w) /\
+  (forall d w, gen_fixture_advance_time_delta d w = gen_advance_time_delta d w) /\
+  (forall x w, gen_fixture_advance_time_seconds x w = gen_advance_time_seconds x w).
+Proof. exact gen_fixture_is_module. Qed.
+Print Assumptions C12_fixture_is_module.
+
+(* ---- timedelta(seconds=x): the amount advance_time_seconds / the comparisons use ---- *)
+Theorem C12_td_int_exact : forall z, TD_MIN_US <= z * US_PER_SEC <= TD_MAX_US -> td_of_seconds (PInt z) = Ok (z * US_PER_SEC).
+Proof. exact td_of_seconds_int. Qed.
+Print Assumptions C12_td_int_exact.
+
+Theorem C12_td_float_integral : forall s m e, f_is_integer (S754_finite s m e) = true ->
+  float_us (S754_finite s m e) = Ok (signed s (fst (modf_abs m e)) * 1000000).
+Proof. exact float_us_integral. Qed.
+Print Assumptions C12_td_float_integral.
+
+Theorem C12_td_float_spec : forall s m e,
+  let '(ip, fm) := modf_abs m e in
+  float_us (S754_finite s m e) = Ok (signed s (ip * 1000000 + rhe_abs (f_mul (f_normalize fm e) f_1e6))) /\
+  (0 <= e -> ip = Zpos m * f_pow2 e /\ fm = 0) /\
+  (e < 0 -> ip * f_pow2 (- e) + fm = Zpos m /\ 0 <= fm < f_pow2 (- e)).
+Proof. exact float_us_spec. Qed.
+Print Assumptions C12_td_float_spec.
+
+Theorem C12_round_half_even_nearest : forall m k, 0 <= m -> 0 < k ->
+  let r := round_half_even m (- k) in
+  2 * Z.abs (r * f_pow2 k - m) <= f_pow2 k /\ (2 * Z.abs (r * f_pow2 k - m) = f_pow2 k -> Z.even r = true).
+Proof. exact round_half_even_nearest. Qed.
+Print Assumptions C12_round_half_even_nearest.
+
+(* ---- list overrides and aware overrides: what the code does ---- *)
+Theorem C12_utcnow_pops_in_order : forall n l w, ov w = Many l -> (n <= length l)%nat ->
+  gen_utcnow_n n w = (Ok (firstn n l), set_ov w (Many (skipn n l))).
+Proof. exact gen_utcnow_pops_in_order. Qed.
+Print Assumptions C12_utcnow_pops_in_order.
+
+(* advance_time_* with a list override moves NO element (the loop rebinds a local); it raises OverflowError when some
+   element + delta is not representable *)
+Theorem C12_advance_list_noop : forall w l delta, ov w = Many l ->
+  gen_advance_time_delta delta w = (if forallb (fun t => in_range (wall t + delta)) l then Ok tt else Exn OverflowError, w).
+Proof. exact gen_advance_list_noop. Qed.
+Print Assumptions C12_advance_list_noop.
+
+(* an aware override is returned as is (C12_override_returns_instant); comparing against it raises TypeError *)
+Theorem C12_aware_override_raises : forall w now z t d s,
+  ov w = One now -> tz now = Some z -> resolves w t d -> normalizable d = true ->
+  gen_is_older_than t s w = (Exn TypeError, w) /\ gen_is_newer_than t s w = (Exn TypeError, w).
+Proof. exact gen_aware_override_raises. Qed.
+Print Assumptions C12_aware_override_raises.
+
 (* ---- comparisons under a scalar (naive UTC) override; t is a naive or aware datetime or a
         string the ISO parser resolves to d; normalizable d = the instant is representable ---- *)
-Theorem C12_older_iff : forall w now t d s,
-  ov w = One now -> tz now = None -> resolves w t d -> normalizable d = true ->
-  exists b, gen_is_older_than t s w = (Ok b, w) /\ (b = true <-> wall now - instant d > s).
+Theorem C12_older_iff : forall w now t d s su,
+  ov w = One now -> tz now = None -> resolves w t d -> normalizable d = true -> td_of_seconds s = Ok su ->
+  exists b, gen_is_older_than t s w = (Ok b, w) /\ (b = true <-> wall now - instant d > su).
 Proof. exact gen_older_iff. Qed.
 Print Assumptions C12_older_iff.
 
-Theorem C12_newer_iff : forall w now t d s,
-  ov w = One now -> tz now = None -> resolves w t d -> normalizable d = true ->
-  exists b, gen_is_newer_than t s w = (Ok b, w) /\ (b = true <-> instant d - wall now > s).
+Theorem C12_newer_iff : forall w now t d s su,
+  ov w = One now -> tz now = None -> resolves w t d -> normalizable d = true -> td_of_seconds s = Ok su ->
+  exists b, gen_is_newer_than t s w = (Ok b, w) /\ (b = true <-> instant d - wall now > su).
 Proof. exact gen_newer_iff. Qed.
 Print Assumptions C12_newer_iff.
 
-Theorem C12_soon_iff : forall w now t d s,
-  ov w = One now -> tz now = None -> resolves w t d -> normalizable d = true ->
-  in_range (wall now + s) = true ->
-  exists b, gen_is_soon t s w = (Ok b, w) /\ (b = true <-> instant d <= wall now + s).
+Theorem C12_soon_iff : forall w now t d s su,
+  ov w = One now -> tz now = None -> resolves w t d -> normalizable d = true -> td_of_seconds s = Ok su ->
+  in_range (wall now + su) = true ->
+  exists b, gen_is_soon t s w = (Ok b, w) /\ (b = true <-> instant d <= wall now + su).
 Proof. exact gen_soon_iff. Qed.
 Print Assumptions C12_soon_iff.
